@@ -15,12 +15,16 @@ struct ArithUint256 {
 };
 struct VbkIndex {
   VbkIndex* pprev;
+  int32_t height;
   uint32_t ts, bits;
+  int32_t getHeight() const { return height; }
   uint32_t getTimestamp() const { return ts; }
   uint32_t getDifficulty() const { return bits; }
 };
 struct VbkChainParams {
   uint32_t period, blocktime;
+  bool noRetarget;
+  bool getPowNoRetargeting() const { return noRetarget; }
   uint32_t getRetargetPeriod() const { return period; }
   uint32_t getTargetBlockTime() const { return blocktime; }
 };
